@@ -38,7 +38,7 @@ ANCHORS = [
     "acnportal.acnsim.models.evse:BaseEVSE._from_dict",
     "acnportal.acnsim.base:BaseSimObj._build_from_id",
 ]
-REQUIRED = ["json_via:path", "json_via:pathlib", "json_via:handle", "points:resume", "points:json", "mode:before", "mode:after", "interrupted_in_final_period", "interrupted_in_first_period",
+REQUIRED = ["resume_points_on_a_network_assigning_spaces_at_random", "json_via:path", "json_via:pathlib", "json_via:handle", "points:resume", "points:json", "mode:before", "mode:after", "interrupted_in_final_period", "interrupted_in_first_period",
             "identity_checks", "canonical_dumps_compared", "queue_orders_compared", "pending:Plugin", "pending:Unplug", "pending:Recompute",
             "evse:EVSE", "evse:DB", "evse:FR", "battery:ideal", "battery:l2", "battery:noise", "hist:on", "hist:off", "sched:scripted",
             "sched:uncontrolled", "sched:sorted", "tz:aware", "tz:naive"]
@@ -60,6 +60,21 @@ def cases(seed, tier):
             d = gen.scenario(rng, sched="sorted", kinds=("EVSE", "FR"), noise_p=0.3, horizon=18, seed=rng.randrange(1 << 20))
         d["hist"] = rng.random() < 0.5
         d["tz"] = rng.choice(TZS) if rng.random() < 0.35 else None
+        if d["scheduler"]["kind"] != "sorted" and rng.random() < 0.2:
+            # more cars than spaces on a network that assigns spaces at random
+            ids_ = [s_["id"] for s_ in d["network"]["stations"]][:3]
+            d["network"]["stations"] = [s_ for s_ in d["network"]["stations"] if s_["id"] in ids_]
+            d["network"]["constraints"] = []
+            for s_ in d["network"]["stations"]:
+                if s_["evse"].get("max") == float("inf"):
+                    s_["evse"]["max"] = 32
+            sess_ = []
+            for k in range(rng.randint(len(ids_) + 1, len(ids_) + 5)):
+                a = rng.randint(0, 6)
+                req = rng.choice([0.3, 3, 25])
+                sess_.append({"id": f"q{k}", "station": rng.choice(ids_), "arrival": a, "departure": a + rng.randint(1, 7), "requested": req,
+                              "est_dep": a + 3, "battery": gen.rand_battery(rng, req, ("ideal", "l2c"))})
+            d["sessions"], d["recompute"], d["stochastic"], d["early"] = sess_, [], True, rng.random() < 0.4
         out.append({"desc": d, "double": tier == "thorough" and rng.random() < 0.3, "pseed": rng.randrange(1 << 30)})
     return out
 
@@ -213,7 +228,14 @@ def key_sorted(seq):
 def make_sim(d, fail_at=(), mode="before"):
     inner = build_scheduler(d)
     fl = flaky_cls()(inner, fail_at, mode)
-    sim, evs = build.build_sim(d, scheduler=fl, store_schedule_history=bool(d.get("hist")))
+    kw = {}
+    if d.get("stochastic"):
+        # spaces assigned at run time with the global `random` stream: reference and interrupted run start from the same seed,
+        # so an interruption may not consume (or skip) any draw
+        from acnportal.contrib.acnsim.network import StochasticNetwork
+        kw = dict(net_cls=StochasticNetwork, net_kw={"early_departure": bool(d.get("early"))})
+        random.seed(d.get("np_seed", 0))
+    sim, evs = build.build_sim(d, scheduler=fl, store_schedule_history=bool(d.get("hist")), **kw)
     return sim, fl
 
 
@@ -273,7 +295,11 @@ def run_case(case, obs):
                 a, b = sorted(rng.sample(inv, 2))
                 points.append((a, b))
         for pt in points:
-            for leg in ("resume", "json"):
+            # (the contrib StochasticNetwork is judged on the resume leg only: the library itself warns on to_json that its
+            # waiting queue and options are not serialised - a declared limitation outside this property's quantifier)
+            for leg in (("resume",) if d.get("stochastic") else ("resume", "json")):
+                if d.get("stochastic"):
+                    obs.ev("resume_points_on_a_network_assigning_spaces_at_random")
                 for mode in modes:
                     if len(pt) == 2 and mode == "after":
                         continue
